@@ -23,7 +23,7 @@ RULE = ("notes = names (7 letters x every '#'/'b' string up to length 4 in all o
         "and with an octave suffix. Non-trivial: name with an accidental (incl. spellings that cross the octave "
         "boundary, Cb / B#), pair of different letters, detune != 0, bound value outside the range, malformed string "
         "sharing a valid prefix."
-        " Also: the same Note object reused across Hz conversions with different standard pitches; velocity / channel bounds together with the 'Name-octave' text form; a coverage-guided atheris campaign over name-like text; comparisons between notes that differ in velocity and channel (half of them of equal pitch); the frequency of every spelling against the pitch-number formula at three standard pitches; direct assignment to .name / .octave after the number has been read.")
+        " Also: the same Note object reused across Hz conversions with different standard pitches; velocity / channel bounds together with the 'Name-octave' text form; a coverage-guided atheris campaign over name-like text; comparisons between notes that differ in velocity and channel (half of them of equal pitch); the frequency of every spelling against the pitch-number formula at three standard pitches; direct assignment to .name / .octave after the number has been read; one frequency read under four standard pitches in a row.")
 ASSUMPTIONS = [
     "'printed form' is repr(note), a quoted Python string literal; it is unquoted with ast.literal_eval before being fed back",
     "malformed names are non-empty strings without '-' that do not match [A-G][#b]*, alone or followed by '-<int>' "
@@ -216,6 +216,18 @@ def check_hz(ctx, case):
             if not failed(back):
                 b0 = ctx.ok("from_hertz", lambda: Note().from_hertz(hz))
                 ctx.check(failed(b0) or _fields(b0) == _fields(back), "hertz/default-standard-pitch", "from_hertz(hz) != from_hertz(hz, 440)")
+    # the very same frequency read under other standard pitches right afterwards: each reading follows its own standard pitch
+    if not failed(f):
+        import math
+        hz = f * 2.0 ** (cents / 1200.0)
+        for std2 in (440, 415.3, 466.16, 432):
+            pos = 57 + 12 * math.log(hz / std2, 2)
+            if abs(pos - round(pos)) > 0.4 or round(pos) < 0:
+                continue  # too close to the border between two semitones for a verdict
+            b2 = ctx.ok("from_hertz", lambda: Note().from_hertz(hz, std2))
+            if not failed(b2):
+                ctx.check(T.valid(b2.name) and T.pitch(b2.name, b2.octave) == int(round(pos)), "hertz/same-frequency-other-standard-pitch",
+                          lambda: "%r Hz under standard pitch %r reads as %r-%r, expected pitch number %d" % (hz, std2, b2.name, b2.octave, int(round(pos))))
     # the same Note object used again: an explicit standard pitch in one call must not leak into later calls
     if not failed(f):
         y = Note("D", 2)
